@@ -141,6 +141,18 @@ def f9a_shape(spec):
 
 
 def classify(spec, opts, dname, lname, msg, E, P, text=None):
+    # two libyaml mechanisms may meet in one stream (a folded more-indented line inside a document that redefines '!' / '!!'):
+    # take the values that show the exact F7c read-back out first, classify the rest, and name both
+    if dname == 'CDumper' and P is not None and len(E) == len(P):
+        hits = [i for i, (e, p) in enumerate(zip(E, P)) if isinstance(e, yaml.ScalarEvent) and isinstance(p, yaml.ScalarEvent) and e.value != p.value
+                and p.style == '>' and f7c_symptom(e.value, p.value)]
+        if hits:
+            E2 = [yaml.ScalarEvent(e.anchor, e.tag, e.implicit, P[i].value, style=e.style) if i in hits else e for i, e in enumerate(E)]
+            m2 = relate(E2, P)
+            if m2 is None:
+                return 'F7c'
+            rest = classify(spec, opts, dname, lname, m2, E2, P, text)
+            return ('F7c+' + rest) if rest and 'F7c' not in rest else rest
     # F9a: libyaml writes nothing at all for an implicit document whose root is an empty plain scalar
     if dname == 'CDumper' and not opts.get('canonical') and f9a_shape(spec):
         if P is None or len(P) < len(E):
